@@ -176,6 +176,37 @@ def r9_fields_filled(ctx, prog):
                 r.violation(f['qname'], site, '%s may have %d bytes when it is copied into the %d-byte field %s' % (srcs[0], bound, extent, fld), file=f['file'], line=line)
             else:
                 r.ok(f['qname'], site, 'clamped to %d = the size of the field' % extent, file=f['file'], line=c['l'])
+        # the same through a file-local helper copy(field, length, value) that clamps `value` to `length` and copies it into `field`: at each call the length is the size of the field
+        for c in calls(f['body']):
+            if not c.get('callee') or '::' in c['callee']:
+                continue
+            hs = [h for h in prog.fns(c['callee']) if not h.get('class') and h.get('body') is not None and os.path.basename(h['file']) == os.path.basename(f['file'])]
+            if not hs:
+                continue
+            h = hs[0]
+            pn = [pp['var']['name'] if pp.get('var') else None for pp in h['params']]
+            dest = [pn.index(x['name']) for k in calls(h['body']) if k.get('callee') in ('strncpy', 'memcpy') and k.get('args') for x in walk(k['args'][0]) if x.get('k') == 'Var' and x['name'] in pn]
+            bound = [pn.index(x['name']) for k in calls(h['body'], short='resize') if k.get('args') for x in walk(k['args'][0]) if x.get('k') == 'Var' and x['name'] in pn]
+            if not dest or not bound or max(dest[0], bound[0]) >= len(c.get('args', [])):
+                continue
+            dst, ln = c['args'][dest[0]], c['args'][bound[0]]
+            while dst.get('k') in ('Cast', 'Paren') and dst.get('e') is not None:
+                dst = dst['e']
+            if dst.get('k') != 'Member' or not dst.get('fq'):
+                continue
+            cls, fld = dst['fq'].rsplit('::', 1)
+            ftype = next((x['type'] for x in (prog.classes.get(cls, {}).get('fields') or []) if x['name'] == fld), '')
+            m = re.search(r'\[(\d+)\]', ftype)
+            v = tables.const_eval(ln)
+            if not m or v is None:
+                continue
+            ctx.analysed(f)
+            extent = int(m.group(1))
+            site = 'copy into %s through %s' % (fld, c['callee'])
+            if v != extent:
+                r.violation(f['qname'], site, 'the value is clamped to %d bytes for the %d-byte field %s' % (v, extent, fld), file=f['file'], line=c['l'])
+            else:
+                r.ok(f['qname'], site, 'clamped to %d = the size of the field' % extent, file=f['file'], line=c['l'])
 
 
 def run(ctx):
